@@ -583,6 +583,17 @@ def run():
     settle("text report: a path read back equals the path written", "report-path", "path-roundtrip", results, nb)
     settle("text report: a report cut inside a path line is rejected", "report-truncation", "truncation", results, nb + ", cuts of 1..4 bytes")
     settle("text report: the base dir read back equals the base dir written", "report-base-dir", "base-dir", bres, "%d shapes" % len(bshapes))
+    # the `# Command:` header line is arg::join of the argument vector, read back with arg::split: the quote/split obligations
+    # of C17 are obligations of C10 as well (same encoding, same bounds)
+    try:
+        rep17 = C17.run()
+        for o in rep17.obls:
+            o.name = "command line (header): " + o.name
+            rep.obls.append(o)
+    except Inconclusive as ex:
+        o = Obligation("command line (header): quote/split", "E2 mirsym/z3")
+        o.verdict, o.detail = "inconclusive", str(ex)
+        rep.add(o)
     return rep
 
 
